@@ -11,3 +11,8 @@ package model
 //@   results s, err
 //@   ensures (err == nil) == suffixOK(model, algs)
 //@   ensures err == nil ==> s == suffixOf(model, algs)
+
+//@ func GetAnchoredOperation
+//@   requires op != nil
+//@   results a, err
+//@   ensures err == nil ==> a != nil && fresh(a) && a.UniqueSuffix == op.UniqueSuffix && a.Type == op.Type && a.AnchorOrigin == op.AnchorOrigin
